@@ -385,7 +385,7 @@ fn indicators(ctx: &Ctx, r: &mut Report) {
 			}
 		}
 		// random joint configurations
-		let nj = ctx.pick(2000u64, 50000);
+		let nj = ctx.pick(4000u64, 50000);
 		for j in 0..nj {
 			k += 1;
 			if !ctx.mine(k) {
